@@ -1,5 +1,5 @@
 (* Extraction of the executable model (definitions only; independent of every proof file). *)
-From MDW Require Import AbiC16 AbiC13 AbiC09 AbiC12 AbiC20 AbiC06 AbiC14 AbiCtx AbiC15.
+From MDW Require Import AbiAll.
 Require Extraction.
 Require Import ExtrOcamlBasic.
-Extraction "../ocaml/gen/model.ml" entry_c16 entry_c13 entry_c13_judge entry_c09 entry_c10_consistent entry_c12 entry_c20 entry_c20_included entry_c06 entry_c06_shorten entry_c14 entry_const entry_ctx_ptrace entry_ctx_ucontext entry_c15.
+Extraction "../ocaml/gen/model.ml" entry_c16 entry_c13 entry_c13_judge entry_c09 entry_c10_consistent entry_c12 entry_c20 entry_c20_included entry_c06 entry_c06_shorten entry_c14 entry_const entry_ctx_ptrace entry_ctx_ucontext entry_c15 entry_tl_listed entry_tl_region entry_tl_memlist entry_tl_exception.
